@@ -198,10 +198,10 @@ Lemma norm_exact : forall (m : b64) (e : Z),
   is_finite m = true -> in_long (e + snd (ffrexp m)) ->
   normalised (rdpe_norm (Rdpe m e)) /\ rval (rdpe_norm (Rdpe m e)) = rval (Rdpe m e).
 Proof.
-  intros m e Hm Hl. unfold rdpe_norm. simpl mnt; simpl esp.
+  intros m e Hm Hl. unfold rdpe_norm. cbn [mnt esp].
   pose proof (ffrexp_spec m Hm) as H. destruct (ffrexp m) as [z i]. simpl in Hl.
   destruct H as [Hz [Hv [[H0 [Hz0 [Hi Hq]]]|[Hn [Hb [Hi Hq]]]]]].
-  - unfold rdpe_set_esp. simpl mnt. rewrite Hq.
+  - unfold rdpe_set_esp. cbn [mnt]. rewrite Hq.
     split. split; [assumption|]. left; split; [assumption|reflexivity].
     unfold rval; simpl. rewrite Hz0, H0. ring.
   - rewrite (set_esp_exact z e e i false Hq Hl). split. split; [assumption|]. right; assumption.
@@ -214,14 +214,14 @@ Lemma norm_mnt_sign : forall (m : b64) (e : Z), is_finite m = true ->
   ((0 < B2R (mnt (rdpe_norm (Rdpe m e))))%R <-> (0 < B2R m)%R) /\
   ((B2R (mnt (rdpe_norm (Rdpe m e))) < 0)%R <-> (B2R m < 0)%R).
 Proof.
-  intros m e Hm. unfold rdpe_norm. simpl mnt; simpl esp.
+  intros m e Hm. unfold rdpe_norm. cbn [mnt esp].
   pose proof (ffrexp_spec m Hm) as H. destruct (ffrexp m) as [z i].
   destruct H as [Hz [Hv Hc]].
   assert (Hp := bpow_gt_0 radix2 i).
   assert (S1 : (0 < B2R z)%R <-> (0 < B2R m)%R) by (rewrite Hv; split; intro; nra).
   assert (S2 : (B2R z < 0)%R <-> (B2R m < 0)%R) by (rewrite Hv; split; intro; nra).
   destruct Hc as [[H0 [Hz0 [Hi Hq]]]|[Hn [Hb [Hi Hq]]]].
-  - unfold rdpe_set_esp. simpl mnt. rewrite Hq. simpl mnt. repeat split; try assumption; tauto.
+  - unfold rdpe_set_esp. cbn [mnt]. rewrite Hq. cbn [mnt]. repeat split; try assumption; tauto.
   - assert (Nz : B2R z <> 0%R) by (intro K; rewrite K, Rabs_R0 in Hb; lra).
     destruct (set_esp_sign z e e i false Hz Nz) as [F [P [N _]]].
     repeat split; try assumption; tauto.
@@ -474,6 +474,14 @@ Proof.
   apply norm_round_rel; assumption.
 Qed.
 
+Lemma feq0_false_rnd : forall (f : b64) (r : R), is_finite f = true -> B2R f = rnd64 r ->
+  (/4 <= Rabs r <= 2)%R -> feq0 f = false /\ B2R f <> 0%R.
+Proof.
+  intros f r Hf Hr Hb. destruct (rnd_bounds r Hb) as [[B1 _] _].
+  assert (N : B2R f <> 0%R) by (intro K; rewrite Hr in K; rewrite K, Rabs_R0 in B1; lra).
+  split; [|assumption]. destruct (feq0 f) eqn:E; [|reflexivity]. apply (feq0_spec f Hf) in E. contradiction.
+Qed.
+
 (* rdpe_sqr *)
 Lemma sqr_rel : forall x, normalised x -> nonzero x ->
   LONG_MIN + 1 <= esp x + esp x <= LONG_MAX - 2 ->
@@ -483,7 +491,6 @@ Proof.
   intros x Nx Zx HE.
   pose proof (normalised_bounds x Nx Zx) as Bx.
   unfold rdpe_sqr.
-  rewrite wrap64_id by (unfold in_long, LONG_MAX, LONG_MIN in *; lia).
   set (r := (B2R (mnt x) * B2R (mnt x))%R).
   assert (Hb : (/4 <= Rabs r <= 2)%R).
   { unfold r. rewrite Rabs_mult. split.
@@ -493,7 +500,10 @@ Proof.
   pose proof (Bmult_correct 53 1024 _ _ mode_NE (mnt x) (mnt x)) as HB.
   change (round_mode mode_NE) with ZnearestE in HB. fold r in HB.
   rewrite Rlt_bool_true in HB by assumption. destruct HB as [H1 [H2 _]].
-  rewrite (proj1 Nx) in H2.
+  rewrite (proj1 Nx) in H2. simpl in H2.
+  destruct (feq0_false_rnd _ r H2 H1 Hb) as [Q _].
+  rewrite (set_esp_exact (fmul (mnt x) (mnt x)) (esp x) (esp x) (esp x) false Q)
+    by (unfold in_long, LONG_MAX, LONG_MIN in *; lia).
   replace (rval x * rval x)%R with (r * bpow radix2 (esp x + esp x))%R
     by (unfold rval, r; rewrite bpow_plus; ring).
   apply norm_round_rel; assumption.
@@ -508,7 +518,6 @@ Proof.
   intros x y Nx Ny Zx Zy HE.
   pose proof (normalised_bounds x Nx Zx) as Bx. pose proof (normalised_bounds y Ny Zy) as By.
   unfold rdpe_div.
-  rewrite wrap64_id by (unfold in_long, LONG_MAX, LONG_MIN in *; lia).
   set (r := (B2R (mnt x) / B2R (mnt y))%R).
   assert (Hb : (/4 <= Rabs r <= 2)%R).
   { unfold r, Rdiv. rewrite Rabs_mult, Rabs_inv.
@@ -523,9 +532,78 @@ Proof.
   change (round_mode mode_NE) with ZnearestE in HB. fold r in HB.
   rewrite Rlt_bool_true in HB by assumption. destruct HB as [H1 [H2 _]].
   rewrite (proj1 Nx) in H2.
+  destruct (feq0_false_rnd _ r H2 H1 Hb) as [Q _].
+  rewrite (set_esp_exact (fdiv (mnt x) (mnt y)) (esp x) (esp x) (esp y) true Q)
+    by (unfold in_long, LONG_MAX, LONG_MIN in *; lia).
   replace (rval x / rval y)%R with (r * bpow radix2 (esp x - esp y))%R.
   2:{ unfold rval, r, Z.sub. rewrite bpow_plus, bpow_opp. field. split.
       apply Rgt_not_eq, bpow_gt_0. exact Zy. }
+  apply norm_round_rel; assumption.
+Qed.
+
+(* rdpe_sqr on exponent overflow / underflow: exactly RDPE_MAX / RDPE_MIN *)
+(* equality of DPE values as the C code sees them: same exponent, same bit pattern of the mantissa *)
+Definition same_rdpe (a b : rdpe) : Prop := esp a = esp b /\ to_bits (mnt a) = to_bits (mnt b).
+Lemma sqr_saturates : forall x, normalised x -> nonzero x -> in_long (esp x) ->
+  (LONG_MAX < esp x + esp x -> same_rdpe (rdpe_sqr x) RDPE_MAX) /\
+  (esp x + esp x < LONG_MIN -> same_rdpe (rdpe_sqr x) RDPE_MIN).
+Proof.
+  intros x Nx Zx Lx.
+  pose proof (normalised_bounds x Nx Zx) as Bx.
+  unfold rdpe_sqr.
+  set (r := (B2R (mnt x) * B2R (mnt x))%R).
+  assert (Hb : (/4 <= Rabs r <= 2)%R).
+  { unfold r. rewrite Rabs_mult. split.
+    - replace (/4)%R with (/2 * /2)%R by field. apply Rmult_le_compat; lra.
+    - apply Rle_trans with (1 * 1)%R; [|lra]. apply Rmult_le_compat; try apply Rabs_pos; lra. }
+  destruct (rnd_bounds r Hb) as [[B1 _] [Hov _]].
+  pose proof (Bmult_correct 53 1024 _ _ mode_NE (mnt x) (mnt x)) as HB.
+  change (round_mode mode_NE) with ZnearestE in HB. fold r in HB.
+  rewrite Rlt_bool_true in HB by assumption. destruct HB as [H1 [H2 _]].
+  rewrite (proj1 Nx) in H2. simpl in H2.
+  destruct (feq0_false_rnd _ r H2 H1 Hb) as [_ Nz].
+  assert (Pos : (0 <= r)%R) by (unfold r; nra).
+  assert (L : flt0 (fmul (mnt x) (mnt x)) = false).
+  { destruct (flt0 (fmul (mnt x) (mnt x))) eqn:E; [|reflexivity]. apply (flt0_spec _ H2) in E.
+    exfalso. unfold fmul in E. rewrite H1 in E.
+    assert (0 <= rnd64 r)%R by (apply round_ge_generic; try typeclasses eauto; [apply generic_format_0|assumption]).
+    lra. }
+  destruct (set_esp_saturates (fmul (mnt x) (mnt x)) (esp x) (esp x) (esp x) false H2 Nz Lx Lx) as [_ [_ [Ho Hu]]].
+  cbv zeta in Ho, Hu. rewrite L in Ho, Hu. split; intro H.
+  - rewrite (Ho H). vm_compute. split; reflexivity.
+  - rewrite (Hu H). vm_compute. split; reflexivity.
+Qed.
+
+Lemma B2R_fone : B2R fone = 1%R.
+Proof. unfold fone, B2R, F2R; simpl. unfold Z.pow_pos; simpl. lra. Qed.
+
+(* rdpe_inv *)
+Lemma inv_rel : forall x, normalised x -> nonzero x ->
+  LONG_MIN + 1 <= - esp x <= LONG_MAX - 2 ->
+  normalised (rdpe_inv x) /\
+  (Rabs (rval (rdpe_inv x) - / rval x) <= bpow radix2 (-53) * Rabs (/ rval x))%R.
+Proof.
+  intros x Nx Zx HE.
+  pose proof (normalised_bounds x Nx Zx) as Bx.
+  unfold rdpe_inv.
+  set (r := (B2R fone / B2R (mnt x))%R).
+  assert (Hb : (/4 <= Rabs r <= 2)%R).
+  { unfold r, Rdiv. rewrite B2R_fone, Rmult_1_l, Rabs_inv.
+    assert (1 < / Rabs (B2R (mnt x)) <= 2)%R.
+    { split. rewrite <- Rinv_1 at 1. apply Rinv_lt_contravar; lra.
+      replace 2%R with (/ / 2)%R by field. apply Rinv_le_contravar; lra. }
+    lra. }
+  destruct (rnd_bounds r Hb) as [_ [Hov _]].
+  pose proof (Bdiv_correct 53 1024 _ _ mode_NE fone (mnt x) Zx) as HB.
+  change (round_mode mode_NE) with ZnearestE in HB. fold r in HB.
+  rewrite Rlt_bool_true in HB by assumption. destruct HB as [H1 [H2 _]].
+  change (is_finite fone) with true in H2.
+  destruct (feq0_false_rnd _ r H2 H1 Hb) as [Q _].
+  rewrite (set_esp_exact (fdiv fone (mnt x)) (esp x) 0 (esp x) true Q)
+    by (unfold in_long, LONG_MAX, LONG_MIN in *; lia).
+  replace (/ rval x)%R with (r * bpow radix2 (0 - esp x))%R.
+  2:{ unfold rval, r. rewrite B2R_fone. change (0 - esp x) with (- esp x). rewrite bpow_opp. field. split.
+      apply Rgt_not_eq, bpow_gt_0. exact Zx. }
   apply norm_round_rel; assumption.
 Qed.
 
@@ -552,19 +630,29 @@ Qed.
 Definition two62 : Z := 4611686018427387904.
 Lemma saturates_refuted :
   (* sqr (0.5 * 2^(2^62)): true value 2^(2^63 - 2) overflows; the exponent wraps instead *)
-  (esp (rdpe_sqr (Rdpe fhalf two62)) = LONG_MAX /\ to_bits (mnt (rdpe_sqr (Rdpe fhalf two62))) = to_bits fhalf /\
-   esp (rdpe_sqr (Rdpe fhalf (two62 + 1))) = LONG_MIN + 1) /\
+  (esp (rdpe_sqr_old (Rdpe fhalf two62)) = LONG_MAX /\ to_bits (mnt (rdpe_sqr_old (Rdpe fhalf two62))) = to_bits fhalf /\
+   esp (rdpe_sqr_old (Rdpe fhalf (two62 + 1))) = LONG_MIN + 1) /\
   (* sqrt (RDPE_MAX): (e + 1) / 2 wraps *)
-  esp (rdpe_sqrt RDPE_MAX) = - two62 /\
+  esp (rdpe_sqrt_old RDPE_MAX) = - two62 /\
   (* inv (0.5 * 2^LONG_MIN): - LONG_MIN wraps *)
-  esp (rdpe_inv (Rdpe fhalf LONG_MIN)) = LONG_MIN + 2 /\
+  esp (rdpe_inv_old (Rdpe fhalf LONG_MIN)) = LONG_MIN + 2 /\
   (* rdpe_mul as it was: exponent underflow returns RDPE_MAX *)
   (esp (rdpe_mul_old (Rdpe fhalf LONG_MIN) (Rdpe fhalf (-1))) = LONG_MAX /\
    to_bits (mnt (rdpe_mul_old (Rdpe fhalf LONG_MIN) (Rdpe fhalf (-1)))) = to_bits fhalf) /\
   (* rdpe_get_d as it was: 0.5 * 2^(2^32) converts to 0.5 *)
   to_bits (rdpe_get_d_old (Rdpe fhalf 4294967296)) = to_bits fhalf /\
-  (* rdpe_mul_2exp: unsigned addition wraps *)
-  esp (rdpe_mul_2exp (Rdpe fhalf LONG_MAX) 1) = LONG_MIN.
+  (* rdpe_mul_2exp as it was: unsigned addition wraps *)
+  esp (rdpe_mul_2exp_old (Rdpe fhalf LONG_MAX) 1) = LONG_MIN.
+Proof. vm_compute. repeat split; reflexivity. Qed.
+
+(* the same operands through the repaired code: saturated *)
+Lemma saturates_witnesses_fixed :
+  (esp (rdpe_sqr (Rdpe fhalf two62)) = LONG_MAX /\ esp (rdpe_sqr (Rdpe fhalf (two62 + 1))) = LONG_MAX /\
+   to_bits (mnt (rdpe_sqr (Rdpe fhalf (two62 + 1)))) = to_bits fhalf) /\
+  esp (rdpe_sqrt RDPE_MAX) = two62 /\
+  (esp (rdpe_inv (Rdpe fhalf LONG_MIN)) = LONG_MAX /\ to_bits (mnt (rdpe_inv (Rdpe fhalf LONG_MIN))) = to_bits fhalf) /\
+  esp (rdpe_mul_2exp (Rdpe fhalf LONG_MAX) 1) = LONG_MAX /\
+  rdpe_mul_2exp rdpe_zero 5 = rdpe_zero.
 Proof. vm_compute. repeat split; reflexivity. Qed.
 
 Lemma cmp_unfixed_refuted :
@@ -579,3 +667,177 @@ Lemma normalised_mhalf : forall e, normalised (Rdpe fmhalf e).
 Proof. intro e. split. reflexivity. right. simpl mnt. rewrite B2R_fmhalf, Rabs_left; lra. Qed.
 Lemma nonzero_half : forall e, nonzero (Rdpe fhalf e).
 Proof. intro e. unfold nonzero; simpl mnt. rewrite B2R_fhalf. lra. Qed.
+
+(* ---- rdpe_cmp (repaired code), in the cases rdpe_sub computes the difference exactly ---------- *)
+Definition cmp_R (a b : R) : Z := match Rcompare a b with Lt => -1 | Eq => 0 | Gt => 1 end.
+
+Lemma cmp_of_sub_sign : forall x y, sub_sign_ok x y -> rdpe_cmp x y = cmp_R (rval x) (rval y).
+Proof.
+  intros x y [Ft [Sp Sn]]. unfold rdpe_cmp, rdpe_cmp_gen, cmp_R.
+  destruct (sign_bools _ Ft) as [[S [G [L _]]]|[[S [G [L _]]]|[S [G [L _]]]]]; rewrite G; try rewrite L.
+  - apply Sp in S. rewrite Rcompare_Gt by assumption. reflexivity.
+  - apply Sn in S. rewrite Rcompare_Lt by assumption. reflexivity.
+  - destruct (Rcompare_spec (rval x) (rval y)) as [H|H|H]; try reflexivity; exfalso.
+    + apply Sn in H. lra.
+    + apply Sp in H. lra.
+Qed.
+
+Lemma cmp_correct_partial : forall x y, normalised x -> normalised y -> in_long (esp x) ->
+  (B2R (mnt y) = 0%R \/ B2R (mnt x) = 0%R \/
+   (esp x = esp y /\ ((0 < B2R (mnt x))%R /\ (0 < B2R (mnt y))%R \/ (B2R (mnt x) < 0)%R /\ (B2R (mnt y) < 0)%R))) ->
+  rdpe_cmp x y = cmp_R (rval x) (rval y).
+Proof.
+  intros x y Nx Ny Lx H. apply cmp_of_sub_sign.
+  destruct H as [H|[H|[He Hs]]].
+  - apply sub_sign_zero_r; assumption.
+  - destruct (Req_dec (B2R (mnt y)) 0) as [Hy|Hy].
+    + apply sub_sign_zero_r; assumption.
+    + apply sub_sign_zero_l; assumption.
+  - apply sub_sign_same_exp; assumption.
+Qed.
+
+(* ---- rdpe_add / rdpe_sub: the |delta| > 53 shortcut ------------------------------------------------ *)
+Lemma esp_distance_exact : forall a b, in_long a -> in_long b -> in_long (a - b) -> esp_distance a b = a - b.
+Proof.
+  intros a b [A1 A2] [B1 B2] [C1 C2]. unfold esp_distance.
+  assert (E1 : (b <? 0) && (LONG_MAX + b <? a) = false) by (unfold LONG_MAX, LONG_MIN in *; lia).
+  assert (E2 : (0 <? b) && (a <? LONG_MIN + b) = false) by (unfold LONG_MAX, LONG_MIN in *; lia).
+  rewrite E1, E2. reflexivity.
+Qed.
+
+Lemma esp_distance_gt : forall a b, in_long a -> in_long b -> 53 < a - b -> NBT <? esp_distance a b = true.
+Proof.
+  intros a b [A1 A2] [B1 B2] H. unfold esp_distance, NBT.
+  destruct ((b <? 0) && (LONG_MAX + b <? a)) eqn:E1. unfold LONG_MAX; reflexivity.
+  assert (E2 : (0 <? b) && (a <? LONG_MIN + b) = false) by (unfold LONG_MAX, LONG_MIN in *; lia).
+  rewrite E2. lia.
+Qed.
+
+(* dropping an operand more than 53 binades below the other costs at most 2 ulps of the exact sum *)
+Lemma drop_small_rel : forall x y, normalised x -> normalised y -> nonzero x -> nonzero y ->
+  53 < esp x - esp y -> forall s : R, (s = rval y \/ s = - rval y)%R ->
+  (Rabs (rval x - (rval x + s)) <= 2 * bpow radix2 (-53) * Rabs (rval x + s))%R.
+Proof.
+  intros x y Nx Ny Zx Zy He s Hs.
+  pose proof (rval_bounds x Nx Zx) as [Bx _]. pose proof (rval_bounds y Ny Zy) as [_ By].
+  set (P := bpow radix2 (esp x - 54)).
+  assert (HP : (0 < P)%R) by apply bpow_gt_0.
+  assert (HY : (Rabs s < P)%R).
+  { apply Rlt_le_trans with (bpow radix2 (esp y)).
+    - destruct Hs as [Hs|Hs]; rewrite Hs; [|rewrite Rabs_Ropp]; assumption.
+    - apply bpow_le. lia. }
+  set (T := bpow radix2 53). set (u := bpow radix2 (-53)).
+  assert (HT : (2 <= T)%R) by (change 2%R with (bpow radix2 1); apply bpow_le; lia).
+  assert (Hu : (u * T = 1)%R) by (unfold u, T; rewrite <- bpow_plus; reflexivity).
+  assert (Hu0 : (0 < u)%R) by apply bpow_gt_0.
+  assert (HX : (T * P <= Rabs (rval x))%R).
+  { unfold T, P. rewrite <- bpow_plus. replace (53 + (esp x - 54)) with (esp x - 1) by ring. assumption. }
+  replace (rval x - (rval x + s))%R with (- s)%R by ring. rewrite Rabs_Ropp.
+  assert (Htri : (Rabs (rval x) - Rabs s <= Rabs (rval x + s))%R).
+  { replace (rval x) with ((rval x + s) + - s)%R at 1 by ring.
+    pose proof (Rabs_triang (rval x + s) (- s)) as K. rewrite Rabs_Ropp in K. lra. }
+  assert (Hu2 : (u <= /2)%R) by nra.
+  apply Rle_trans with P; [lra|].
+  apply Rle_trans with (2 * u * (T * P - P))%R.
+  - replace (2 * u * (T * P - P))%R with (2 * (u * T) * P - 2 * u * P)%R by ring. rewrite Hu. nra.
+  - apply Rmult_le_compat_l; [nra|]. lra.
+Qed.
+
+Lemma add_shortcut_rel : forall x y, normalised x -> normalised y -> nonzero x -> nonzero y ->
+  in_long (esp x) -> in_long (esp y) -> esp x < LONG_MAX -> 53 < esp x - esp y ->
+  rdpe_add x y = x /\
+  (Rabs (rval (rdpe_add x y) - (rval x + rval y)) <= 2 * bpow radix2 (-53) * Rabs (rval x + rval y))%R.
+Proof.
+  intros x y Nx Ny Zx Zy Lx Ly Hmax He.
+  assert (E : rdpe_add x y = x).
+  { unfold rdpe_add, both_max.
+    replace (esp x =? LONG_MAX) with false by lia. rewrite !andb_false_r. simpl.
+    unfold rdpe_add_core, rdpe_add_core_gen.
+    destruct (feq0 (mnt y)) eqn:Qy; [reflexivity|].
+    destruct (feq0 (mnt x)) eqn:Qx. { apply (feq0_spec _ (proj1 Nx)) in Qx. contradiction. }
+    cbv zeta. rewrite (esp_distance_gt _ _ Lx Ly He). reflexivity. }
+  split; [assumption|]. rewrite E. apply (drop_small_rel x y Nx Ny Zx Zy He (rval y)). left; reflexivity.
+Qed.
+
+Lemma sub_shortcut_rel : forall x y, normalised x -> normalised y -> nonzero x -> nonzero y ->
+  in_long (esp x) -> in_long (esp y) -> 53 < esp x - esp y ->
+  rdpe_sub x y = x /\
+  (Rabs (rval (rdpe_sub x y) - (rval x - rval y)) <= 2 * bpow radix2 (-53) * Rabs (rval x - rval y))%R.
+Proof.
+  intros x y Nx Ny Zx Zy Lx Ly He.
+  assert (E : rdpe_sub x y = x).
+  { unfold rdpe_sub, rdpe_sub_gen.
+    destruct (feq0 (mnt y)) eqn:Qy; [reflexivity|].
+    destruct (feq0 (mnt x)) eqn:Qx. { apply (feq0_spec _ (proj1 Nx)) in Qx. contradiction. }
+    cbv zeta. rewrite (esp_distance_gt _ _ Lx Ly He). reflexivity. }
+  split; [assumption|]. rewrite E.
+  replace (rval x - rval y)%R with (rval x + - rval y)%R by ring.
+  apply (drop_small_rel x y Nx Ny Zx Zy He (- rval y)%R). right; reflexivity.
+Qed.
+
+(* ---- subtraction of same-sign operands with equal exponents (cancellation): exact, by Sterbenz ---- *)
+Lemma ffrexp_exp_bound : forall m : b64, is_finite m = true -> -1074 <= snd (ffrexp m) <= 1024.
+Proof.
+  intros d Hd. pose proof (ffrexp_spec d Hd) as S. destruct (ffrexp d) as [z i]. simpl.
+  destruct S as [_ [_ [[_ [_ [Hi _]]]|[Hn [_ [Hi _]]]]]].
+  - subst i. lia.
+  - assert (i <= 1024) by (rewrite Hi; apply mag_le_bpow; [assumption|apply abs_B2R_lt_emax]).
+    assert (-1074 < i).
+    { rewrite Hi. apply mag_gt_bpow.
+      apply (abs_B2R_ge_emin 53 1024 d). apply is_finite_strict_B2R. assumption. }
+    lia.
+Qed.
+
+Lemma sub_cancel_exact : forall x y, normalised x -> normalised y -> nonzero x -> nonzero y ->
+  esp x = esp y -> LONG_MIN + 1074 <= esp x <= LONG_MAX - 1024 ->
+  ((0 < B2R (mnt x))%R /\ (0 < B2R (mnt y))%R \/ (B2R (mnt x) < 0)%R /\ (B2R (mnt y) < 0)%R) ->
+  normalised (rdpe_sub x y) /\ rval (rdpe_sub x y) = (rval x - rval y)%R.
+Proof.
+  intros x y Nx Ny Zx Zy He HE Hs.
+  assert (Lx : in_long (esp x)) by (unfold in_long, LONG_MIN, LONG_MAX in *; lia).
+  unfold rdpe_sub, rdpe_sub_gen.
+  destruct (feq0 (mnt y)) eqn:Qy. { apply (feq0_spec _ (proj1 Ny)) in Qy. contradiction. }
+  destruct (feq0 (mnt x)) eqn:Qx. { apply (feq0_spec _ (proj1 Nx)) in Qx. contradiction. }
+  rewrite <- He, (esp_distance_same _ Lx). simpl.
+  destruct (fsub_same_binade _ _ (proj1 Nx) (proj1 Ny) (normalised_bounds x Nx Zx) (normalised_bounds y Ny Zy) Hs) as [Ft Vt].
+  pose proof (ffrexp_exp_bound _ Ft) as Bi.
+  assert (Hl : in_long (esp x + snd (ffrexp (fsub (mnt x) (mnt y))))) by (unfold in_long, LONG_MIN, LONG_MAX in *; lia).
+  destruct (norm_exact _ (esp x) Ft Hl) as [N V]. split; [assumption|].
+  rewrite V. unfold rval. cbn [mnt esp]. rewrite Vt, <- He. ring.
+Qed.
+
+(* ---- rdpe_sqrt, even exponent --------------------------------------------------------------- *)
+Lemma sqrt_rel_even : forall x, normalised x -> (0 < B2R (mnt x))%R -> Z.even (esp x) = true -> in_long (esp x) ->
+  normalised (rdpe_sqrt x) /\
+  (Rabs (rval (rdpe_sqrt x) - sqrt (rval x)) <= bpow radix2 (-53) * Rabs (sqrt (rval x)))%R.
+Proof.
+  intros x Nx Px Ev Lx.
+  assert (Zx : nonzero x) by (unfold nonzero; lra).
+  pose proof (normalised_bounds x Nx Zx) as Bx. rewrite Rabs_pos_eq in Bx by lra.
+  unfold rdpe_sqrt. rewrite <- Z.negb_even, Ev. simpl negb. cbv iota.
+  set (E := Z.quot (esp x) 2).
+  assert (HE2 : esp x = 2 * E).
+  { unfold E. pose proof (Z.quot_rem' (esp x) 2) as Q.
+    assert (R0 : Z.rem (esp x) 2 = 0).
+    { apply Z.even_spec in Ev. destruct Ev as [k Hk]. rewrite Hk. rewrite Z.mul_comm. apply Z.rem_mul. lia. }
+    lia. }
+  set (r := sqrt (B2R (mnt x))).
+  assert (Hr1 : (/2 <= r)%R).
+  { unfold r. replace (/2)%R with (sqrt (/2 * /2)) by (rewrite sqrt_square; lra).
+    apply sqrt_le_1_alt. lra. }
+  assert (Hr2 : (r <= 1)%R).
+  { unfold r. rewrite <- sqrt_1. apply sqrt_le_1_alt. lra. }
+  assert (Hb : (/4 <= Rabs r <= 2)%R) by (rewrite Rabs_pos_eq; lra).
+  destruct (Bsqrt_correct 53 1024 _ _ mode_NE (mnt x)) as [H1 [H2 _]].
+  change (round_mode mode_NE) with ZnearestE in H1. fold r in H1.
+  assert (Ff : is_finite (fsqrt (mnt x)) = true).
+  { unfold fsqrt. rewrite H2. destruct (mnt x) as [s|s| |s m e He]; simpl in *; try lra; try reflexivity.
+    destruct s; [|reflexivity]. exfalso.
+    assert (F2R (Float radix2 (cond_Zopp true (Z.pos m)) e) < 0)%R.
+    { apply F2R_lt_0. simpl. lia. }
+    lra. }
+  replace (sqrt (rval x)) with (r * bpow radix2 E)%R.
+  2:{ unfold rval, r. rewrite HE2, sqrt_mult; [|lra|apply bpow_ge_0]. rewrite sqrt_bpow. reflexivity. }
+  apply norm_round_rel; try assumption.
+  unfold in_long, LONG_MIN, LONG_MAX in *. lia.
+Qed.
